@@ -4,7 +4,9 @@ import (
 	"fmt"
 	"net"
 	"os"
+	"path/filepath"
 	"strconv"
+	"strings"
 	"sync"
 	"time"
 )
@@ -106,23 +108,60 @@ func (p *Peer) LocalLabel(udp bool) string {
 var (
 	portMu   sync.Mutex
 	portNext int
+	portDir  = filepath.Join(os.TempDir(), "verif-ports")
 )
 
-// FreePort returns a loopback port from this shard's private range that is currently free for
-// both TCP and UDP.
+const (
+	portBase  = 10000
+	portCount = 22000 // 10000..31999: below the ephemeral range, above the ports the repository's own tests use
+)
+
+// reserve claims a port for this process across all concurrently running check processes
+// (a lock file named after the port, holding our pid; stale files of dead processes are reclaimed).
+func reserve(port int) bool {
+	os.MkdirAll(portDir, 0o777) //nolint:errcheck
+	name := filepath.Join(portDir, strconv.Itoa(port))
+	for attempt := 0; attempt < 2; attempt++ {
+		f, err := os.OpenFile(name, os.O_CREATE|os.O_EXCL|os.O_WRONLY, 0o666)
+		if err == nil {
+			fmt.Fprintf(f, "%d", os.Getpid())
+			f.Close()
+			return true
+		}
+		b, rerr := os.ReadFile(name)
+		if rerr != nil {
+			continue
+		}
+		pid, _ := strconv.Atoi(strings.TrimSpace(string(b)))
+		if pid == os.Getpid() {
+			return false // already handed out by this process
+		}
+		if pid > 0 {
+			if _, serr := os.Stat(fmt.Sprintf("/proc/%d", pid)); serr == nil {
+				return false // owner alive
+			}
+		}
+		os.Remove(name) // stale
+	}
+	return false
+}
+
+// FreePort returns a loopback port reserved for this process (no other check process will be
+// handed the same one while we live) that is currently free for both TCP and UDP.
 func FreePort() int {
 	portMu.Lock()
 	defer portMu.Unlock()
-	shard, _ := strconv.Atoi(os.Getenv("VERIF_SHARD"))
-	base := 10000 + (shard%16)*1400
-	for tries := 0; tries < 1400; tries++ {
-		port := base + portNext%1400
+	if portNext == 0 {
+		portNext = (os.Getpid()*7919)%portCount + 1
+	}
+	for tries := 0; tries < portCount; tries++ {
+		port := portBase + portNext%portCount
 		portNext++
-		if CanBind(port) {
+		if CanBind(port) && reserve(port) {
 			return port
 		}
 	}
-	panic("BROKEN: no free port in the shard's range")
+	panic("BROKEN: no free port")
 }
 
 // CanBind tells whether both a TCP listener and a UDP socket can be bound on the port right now.
